@@ -43,6 +43,31 @@ def run(repo: Repo, chk: Check) -> None:
     rewrite_identities(repo, chk)
     pack(repo, chk)
     transform_linear(repo, chk)
+    pattern_canon(repo, chk)
+
+
+# --------------------------------------------------------------------------- AccessPattern.canonicalize / inner_dims
+def pattern_canon(repo: Repo, chk: Check) -> None:
+    from . import c03
+
+    # the rule of C03 on the same function: bounds and columns selected by one predicate that rejects exactly bound == 1 (a dynamic bound
+    # None is kept), nothing else about the map changes
+    c03.drop_unit(repo, chk, rule="C19.pattern-canon", quals=("AccessPattern.canonicalize",), floor=3)
+    chk.rule("C19.inner-dims", "AccessPattern.inner_dims keeps the same trailing slice of the bounds and of the matrix columns and the original bias", floor=1)
+    f, fl = flow_of(repo, chk, c03.AP, "AccessPattern.inner_dims")
+    rets = [x for x in fl.stmts(ast.Return) if x.reachable and x.node.value is not None]
+    if not rets:
+        raise AnalysisError(f"{f.where}: no return")
+    for n_, s_ in enumerate(rets, 1):
+        v = norm.primary(s_.expand(s_.node.value))
+        mb = norm.find(T("self.bounds[$s]"), v)
+        mc = norm.find(T("self.pattern.A[:, $s]"), v)
+        if not mb or not mc:
+            raise AnalysisError(f"{s_.where()}: the selection of bounds / columns is not recognised in `{ast.unparse(v)[:120]}`")
+        sb, sc = ast.unparse(norm.canon(mb[0][1]["s"])), ast.unparse(norm.canon(mc[0][1]["s"]))
+        bias = norm.contains(v, T("AffineTransform($_, self.pattern.b)"))
+        chk.result(sb == sc and bias, "C19.inner-dims", f"{f.key}:return#{n_}", s_.where(), f"bounds and columns are both sliced by [{sb}], the bias is the original one",
+                   f"bounds are sliced by [{sb}] but columns by [{sc}] (bias kept: {bias}): the remaining dimensions no longer pair with their columns")
 
 
 # --------------------------------------------------------------------------- StridePattern print / parse
@@ -533,7 +558,7 @@ def _model_eval(e: ast.AST, expr: _V, pname: str):
 
 
 def _samples(kind: str):
-    consts = [_V("const", c) for c in (-2, 0, 1, 3, 4)]
+    consts = [_V("const", c) for c in (-2, 0, 1, 3, 4, 6)]
     leaves = [_V("leaf", v) for v in (-3, 2, 6)]
     atoms_ = consts + leaves
     small = []
